@@ -443,7 +443,9 @@ def run(ctx):
         "for sizes %s, keep_last_line x hide_cursor, every initial screen (0..h+2 printed lines; cursor parked on every row over junk): all "
         "render histories up to depth 2-3 (thorough 3-4) over the menu heights 0..h+2 x row patterns (all full-width / all one character / "
         "empty-one-full / full-empty) x cursor on the first and last array cell, row content distinct per step and row, and exit from every "
-        "state. Stateless w.r.t. deduplication (content differs per step, so every history is a distinct state). non-trivial = the render "
+        "state. Families beyond the small sizes: rows with double-width / zero-width characters (3x7, 2x9); 3x48 and 3x60 terminals with 40+ "
+        "character lines sharing prefixes (depth 2, thorough 3); single renders of 0/2/h+1/h+499/h+501/h+520/2h+1000 rows from every initial "
+        "cursor row on 3x8 and 5x8 (depth 2). Stateless w.r.t. deduplication (content differs per step, so every history is a distinct state). non-trivial = the render "
         "scrolls or follows another render. transitions = real renders and exits." % (sizes,)
     )
     rep.assumptions = [
